@@ -21,5 +21,8 @@ Fixpoint show (v : obj) : string :=
   | Hash kvs => "#H(" ++ (fix go (l : list (obj * obj)) : string :=
                             match l with [] => "" | (k, w) :: r => show k ++ "=" ++ show w ++ " " ++ go r end) kvs ++ ")"
   | Lam ll d body => "#<lambda (" ++ many ll ++ ") """ ++ d ++ """ " ++ many body ++ ">"
+  | Inst f slots => "#<" ++ f ++ " " ++ (fix go (l : list (string * obj)) : string :=
+                            match l with [] => "" | (k, w) :: r => k ++ "=" ++ show w ++ " " ++ go r end) slots ++ ">"
+  | Flv n _ _ _ _ _ => "#<flavor " ++ n ++ ">"
   | Opaque w => "#<" ++ w ++ ">"
   end.
